@@ -1,0 +1,117 @@
+//! Read-only accessors for the verification harness (cargo feature `verif`).
+
+use std::sync::atomic::Ordering;
+use std::sync::Arc;
+
+use crate::constants::FEOX_BLOCK_SIZE;
+use crate::core::record::Record;
+use crate::storage::format::get_format_ref;
+use crate::verif::{RecordDump, StoreDump};
+
+use super::FeoxStore;
+
+impl FeoxStore {
+    pub fn verif_format_version(&self) -> u32 {
+        self.format_version
+    }
+
+    pub fn verif_shard_of(&self, key: &[u8]) -> Option<usize> {
+        self.write_buffer
+            .as_ref()
+            .map(|write_buffer| write_buffer.verif_shard_of(key))
+    }
+
+    pub fn verif_clock_shard_of(&self, key: &[u8]) -> usize {
+        self.version_clock.shard_index(key)
+    }
+
+    pub fn verif_cache(&self) -> Option<&Arc<crate::core::cache::ClockCache>> {
+        self.cache.as_ref()
+    }
+
+    fn verif_record(&self, record: &Arc<Record>) -> RecordDump {
+        let format = get_format_ref(self.format_version);
+        let (extent_retired, extent_readers) = record.verif_extent_state();
+        RecordDump {
+            key: record.key.clone(),
+            resident: record.get_value().map(|value| value.to_vec()),
+            timestamp: record.timestamp,
+            ttl_expiry: record.ttl_expiry.load(Ordering::Acquire),
+            value_len: record.value_len,
+            sector: record.sector.load(Ordering::Acquire),
+            blocks: format
+                .total_size(record.key.len(), record.value_len)
+                .div_ceil(FEOX_BLOCK_SIZE) as u64,
+            refcount: record.refcount.load(Ordering::Acquire),
+            extent_retired,
+            extent_readers,
+            deferred: record.verif_deferred(),
+            retired_at: record.verif_retired_at(),
+            ptr: Arc::as_ptr(record) as usize,
+        }
+    }
+
+    /// Snapshot of everything the checks compare. Only meaningful at quiescence
+    /// (or while every other thread of the store is parked).
+    pub fn verif_dump(&self) -> StoreDump {
+        let mut records = Vec::new();
+        self.hash_table.scan(|_, record| {
+            records.push(self.verif_record(record));
+        });
+        records.sort_by(|a, b| a.key.cmp(&b.key));
+
+        let guard = &crossbeam_epoch::pin();
+        let tree = self
+            .tree
+            .iter()
+            .map(|entry| {
+                let record = entry.value().load(guard);
+                (
+                    entry.key().clone(),
+                    record.timestamp,
+                    Arc::as_ptr(record) as usize,
+                )
+            })
+            .collect();
+
+        let (free_runs, free_runs_by_size, total_free) = {
+            let free_space = self.free_space.read();
+            (
+                free_space.verif_runs(),
+                free_space.verif_runs_by_size(),
+                free_space.get_total_free(),
+            )
+        };
+        let (shards, buffered, retirements) = match self.write_buffer.as_ref() {
+            Some(write_buffer) => {
+                let (buffered, retirements) = write_buffer.verif_pending();
+                (write_buffer.verif_shards(), buffered, retirements)
+            }
+            None => (0, Vec::new(), Vec::new()),
+        };
+
+        StoreDump {
+            format_version: self.format_version,
+            device_size: self.device_size,
+            memory_only: self.memory_only,
+            records,
+            tree,
+            record_count: self.stats.record_count.load(Ordering::Relaxed),
+            memory_usage: self.stats.memory_usage.load(Ordering::Relaxed),
+            disk_usage: self.stats.disk_usage.load(Ordering::Relaxed),
+            keys_with_ttl: self.stats.keys_with_ttl.load(Ordering::Relaxed),
+            cache_memory: self.stats.cache_memory.load(Ordering::Relaxed),
+            free_runs,
+            free_runs_by_size,
+            total_free,
+            shards,
+            buffered,
+            retirements,
+            cache: self
+                .cache
+                .as_ref()
+                .map(|cache| cache.verif_entries())
+                .unwrap_or_default(),
+        }
+    }
+}
